@@ -147,4 +147,60 @@ theorem filterMap_fst_sublist {α β γ : Type} (f : α → Option (β × γ)) (
 theorem div_two_div_pow (t d : Nat) : t / 2 / 2 ^ d = t / 2 ^ (d + 1) := by
   rw [Nat.div_div_eq_div_mul, Nat.pow_succ, Nat.mul_comm]
 
+/-! ### Property lookup under the macro-attached level -/
+
+/-- no property of the list has key `k` -/
+def NoKey (k : String) (props : List (String × Val)) : Prop := ∀ p ∈ props, p.1 ≠ k
+
+theorem lookupFirst_append_of_noKey (k : String) (a b : List (String × Val)) (h : NoKey k a) :
+    lookupFirst k (a ++ b) = lookupFirst k b := by
+  induction a with
+  | nil => rfl
+  | cons p a ih =>
+    obtain ⟨k', v⟩ := p
+    have hk : k' ≠ k := h (k', v) (by simp)
+    have : (k' == k) = false := by simpa using hk
+    simp only [List.cons_append, lookupFirst, this]
+    exact ih (fun q hq => h q (by simp [hq]))
+
+theorem lookupFirst_insertProp (k : String) (v : Val) (props : List (String × Val)) (h : NoKey k props) :
+    lookupFirst k (insertProp k v props) = some v := by
+  induction props with
+  | nil => simp [insertProp, lookupFirst]
+  | cons p props ih =>
+    obtain ⟨k', v'⟩ := p
+    have hk : k' ≠ k := h (k', v') (by simp)
+    have hb : (k' == k) = false := by simpa using hk
+    simp only [insertProp]
+    split
+    · simp [lookupFirst]
+    · simp only [lookupFirst, hb]
+      exact ih (fun q hq => h q (by simp [hq]))
+
+theorem lookupFirst_insertProp_append (k : String) (v : Val) (props rest : List (String × Val)) (h : NoKey k props) :
+    lookupFirst k (insertProp k v props ++ rest) = some v := by
+  induction props with
+  | nil => simp [insertProp, lookupFirst]
+  | cons p props ih =>
+    obtain ⟨k', v'⟩ := p
+    have hk : k' ≠ k := h (k', v') (by simp)
+    have hb : (k' == k) = false := by simpa using hk
+    simp only [insertProp]
+    split
+    · simp [lookupFirst]
+    · simp only [List.cons_append, lookupFirst, hb]
+      exact ih (fun q hq => h q (by simp [hq]))
+
+/-- the level lookup of the level model on converted properties is the pipeline lookup, converted -/
+theorem lvl_lookupFirst (k : String) (props : List (String × Val)) :
+    EmitModel.Level.lookupFirst k (lvlProps props) = (lookupFirst k props).map Val.toLvlVal := by
+  induction props with
+  | nil => rfl
+  | cons p props ih =>
+    obtain ⟨k', v⟩ := p
+    simp only [lvlProps, List.map_cons, EmitModel.Level.lookupFirst, lookupFirst]
+    split
+    · rfl
+    · simpa [lvlProps] using ih
+
 end EmitModel.Pipeline
